@@ -131,7 +131,7 @@ Section Protocols.
   (* CtOption<Vec<u8>> as option *)
   Definition sc_decrypt (v : bytes) (ua : pkpt) (valid : bool) : M (option bytes) :=
     plaintext <- sc_compute_v ua v ;;
-    uf <- unframe plaintext ;;
+    uf <- unframe false plaintext ;;
     match uf with
     | UfMsg m => Val (if valid then Some m else None)
     | _ => Val None
@@ -207,7 +207,7 @@ Section Protocols.
     let k := pairing [(decryption_key, u)] in
     alpha <- tl_compute_v k v ;;
     plaintext <- tl_compute_w alpha w ;;
-    uf <- unframe plaintext ;;
+    uf <- unframe true plaintext ;;
     match uf with
     | UfRange => Val None
     | _ =>
